@@ -322,12 +322,17 @@ def reuse(job, method):
             d1.n = 2
             mid = d1(0.5)
             d1.n = 1
+            d1.method = other
+            mid2 = d1(0.5)
+            d1.method = method
             again = d1(0.5)
             gen2 = nd.MinStepGenerator(base_step=0.25, step_ratio=2.0, num_steps=3, step_nom=1.0)
             fresh = nd.Derivative(f, step=gen2, n=1, order=2, method=method, full_output=True)(0.5)
             gen3 = nd.MinStepGenerator(base_step=0.25, step_ratio=2.0, num_steps=3, step_nom=1.0)
             fresh_mid = nd.Derivative(f, step=gen3, n=2, order=2, method=method, full_output=True)(0.5)
-            return first, again, fresh, mid, fresh_mid
+            gen4 = nd.MinStepGenerator(base_step=0.25, step_ratio=2.0, num_steps=3, step_nom=1.0)
+            fresh_mid2 = nd.Derivative(f, step=gen4, n=1, order=2, method=other, full_output=True)(0.5)
+            return first, again, fresh, mid, fresh_mid, mid2, fresh_mid2
     ex = sn.Explorer(harness, assumptions=box, max_paths=600, timeout_ms=20000)
     paths = list(ex.paths())
     job.absorb_explorer(ex)
@@ -336,9 +341,10 @@ def reuse(job, method):
             import traceback as _tb
             job.violation('raises', dict(key='C09:reuse:raises:%s' % type(p.exc).__name__, kind='reuse', exc=''.join(_tb.format_exception(p.exc))[-1500:]))
             continue
-        first, again, fresh, mid, fresh_mid = p.result
+        first, again, fresh, mid, fresh_mid, mid2, fresh_mid2 = p.result
         for label, (va, ia), (vb, ib) in (('again == first', again, first), ('again == fresh', again, fresh),
-                                           ('after n=2: reused == fresh', mid, fresh_mid)):
+                                           ('after n=2: reused == fresh', mid, fresh_mid),
+                                           ('after method switch: reused == fresh', mid2, fresh_mid2)):
             for x, y, what in ((va, vb, 'value'), (ia.error_estimate, ib.error_estimate, 'error_estimate'), (ia.final_step, ib.final_step, 'final_step')):
                 xs, ys = cm.flat_list(x), cm.flat_list(y)
                 for u, w in zip(xs, ys):
@@ -531,13 +537,18 @@ def replay(cex):
                     d1.n = 2
                     mid = d1(0.5)
                     d1.n = 1
+                    d1.method = other
+                    mid2 = d1(0.5)
+                    d1.method = method
                     again = d1(0.5)
                     fresh = nd.Derivative(f, step=mk(), n=1, order=2, method=method, full_output=True)(0.5)
                     fresh_mid = nd.Derivative(f, step=mk(), n=2, order=2, method=method, full_output=True)(0.5)
+                    fresh_mid2 = nd.Derivative(f, step=mk(), n=1, order=2, method=other, full_output=True)(0.5)
             except Exception as e:  # noqa
                 return True, 'reuse sequence raises %s: %s' % (type(e).__name__, e)
             for label, a, b in (('same call repeated after other uses', again, first), ('reused vs fresh object', again, fresh),
-                                ('after setting n=2: reused vs fresh object', mid, fresh_mid)):
+                                ('after setting n=2: reused vs fresh object', mid, fresh_mid),
+                                ('after switching the method: reused vs fresh object', mid2, fresh_mid2)):
                 if not (np.array_equal(a[0], b[0]) and np.array_equal(a[1].error_estimate, b[1].error_estimate)
                         and np.array_equal(a[1].final_step, b[1].final_step)):
                     return True, ('Derivative(method=%s): %s: value/error %r / %r versus %r / %r (polynomial coefficients %s)'
